@@ -273,6 +273,7 @@ func (e *Encoder) stdlibCall(callee *ssa.Function, cm *ssa.CallCommon, args []Va
 		use()
 		v := e.freshVal("err", resT)
 		c.assume(implies(pc, not(fmt.Sprintf("(= %s iface_nil)", v.S))))
+		c.freshErrs = append(c.freshErrs, v.S)
 		return v, true
 	case strings.HasPrefix(n, "(*sync.Mutex).") || strings.HasPrefix(n, "(*sync.RWMutex)."):
 		use()
@@ -360,6 +361,22 @@ func (e *Encoder) stdlibCall(callee *ssa.Function, cm *ssa.CallCommon, args []Va
 				sortStrings(allocs) // (deterministic script)
 				for _, a := range allocs {
 					c.assume(implies(pc, fmt.Sprintf("(not (= %s (rootof %s)))", rr, a)))
+				}
+				// a reader of statically known type *T (the interface was made from it here) is not the object a
+				// parameter of type *S points into when neither struct type contains the other by value
+				// (Go memory safety: distinct allocations of unrelated types)
+				if len(cm.Args) > 0 {
+					if mi, ok := cm.Args[0].(*ssa.MakeInterface); ok {
+						if tp, ok := mi.X.Type().Underlying().(*types.Pointer); ok {
+							for _, prm := range e.fn.Params {
+								sp, ok := prm.Type().Underlying().(*types.Pointer)
+								if !ok || containsByValue(tp.Elem(), sp.Elem(), 0) || containsByValue(sp.Elem(), tp.Elem(), 0) {
+									continue
+								}
+								c.assume(implies(pc, fmt.Sprintf("(not (= %s (rootof %s)))", rr, e.val(prm).S)))
+							}
+						}
+					}
 				}
 				e.havocObject(st, rr)
 				e.note("io.ReadFull: havocs the destination bytes and the reader's own object (assumes the reader keeps no reference to other memory of this function)")
